@@ -9,6 +9,7 @@ import (
 	"sort"
 	"strings"
 	"sync"
+	"sync/atomic"
 	"testing"
 	"time"
 
@@ -105,6 +106,8 @@ type e2eRun struct {
 	mcs   []*modelClient
 }
 
+var sharedPrefixSeq uint32
+
 var handoffMu sync.Mutex
 var handoffCount = map[turbotunnel.ClientID]int{}
 
@@ -152,6 +155,20 @@ func runSessionsOn(res *vlib.Result, srv *e2eServer, plans []*sessionPlan, deadl
 				return
 			}
 			m := &modelClient{plan: p, f: f, res: res, clientID: turbotunnel.NewClientID(), stop: make(chan struct{})}
+			// ClientIDs are 8 arbitrary bytes: a third of the sessions of a run share their
+			// first 4..7 bytes and differ only in the rest (the tag makes the rest unique)
+			if p.Tag%3 == 0 {
+				k := 4 + int(p.Tag>>8)%3 // 4..6 equal leading bytes
+				for i := 0; i < k; i++ {
+					m.clientID[i] = 0xC5
+				}
+				for i := k; i < 6; i++ {
+					m.clientID[i] = byte(p.Tag >> (8 * uint(i)))
+				}
+				seq := atomic.AddUint32(&sharedPrefixSeq, 1) // unique by construction
+				m.clientID[6], m.clientID[7] = byte(seq>>8), byte(seq)
+				res.Obs("sessions_with_client_ids_sharing_a_prefix", 1)
+			}
 			id := m.clientID
 			m.handoff = func(n int) {
 				waitFor(20*time.Second, func() bool {
